@@ -250,6 +250,7 @@ type tstore struct {
 	metaSel    []blob.Ref
 	swapLimit  int
 	cases      int
+	hung       bool // a start-up never returned: the lower memory store is locked up, stop
 }
 
 func (t *tstore) sig(class, what string, m *mutant) string {
@@ -343,7 +344,7 @@ func allIdx(n int) []int {
 
 // apply serves m.bytes under m.ref, evaluates the oracle, restores the original.
 func (t *tstore) apply(m *mutant, orig []byte) {
-	if !t.r.Only(m.ID) {
+	if !t.r.Only(m.ID) || t.hung {
 		return
 	}
 	if bytes.Equal(m.bytes, orig) {
@@ -368,7 +369,10 @@ func (t *tstore) apply(m *mutant, orig []byte) {
 	t.in.meta.setOver(m.ref, m.bytes)
 	s, _, _, err := t.in.create(nil)
 	t.r.Eval(1)
-	if err != nil {
+	if err == errHang {
+		t.hung = true
+		t.r.Note("tamper_outcomes", m.Target+"/"+cls+"/creation-hung")
+	} else if err != nil {
 		t.r.Note("tamper_outcomes", m.Target+"/"+cls+"/creation-refused")
 	} else {
 		t.verify(s, m, allIdx(len(t.plains)))
@@ -439,7 +443,38 @@ func (t *tstore) mutateOne(target string, l *lowStore, ref blob.Ref, affected in
 	}
 }
 
-func (t *tstore) swap(targetL *lowStore, target string, victim blob.Ref, srcL *lowStore, srcKind string, src blob.Ref, affected int, crafted bool) {
+// lowerOrder lists the blobs of the two lower stores in an order determined by the history, not by
+// the (randomised) ciphertext hashes: blobs the harness cannot attribute to one plaintext first
+// (packed meta blobs, largest first), then the others in the order of their plaintexts.
+func (t *tstore) lowerOrder() (data, meta []blob.Ref) {
+	order := func(l *lowStore, owned func(p *plain) blob.Ref) []blob.Ref {
+		present := map[blob.Ref]bool{}
+		for _, ref := range l.refs() {
+			present[ref] = true
+		}
+		var out, rest []blob.Ref
+		for i := range t.plains {
+			if ref := owned(&t.plains[i]); ref.Valid() && present[ref] {
+				out = append(out, ref)
+				delete(present, ref)
+			}
+		}
+		for ref := range present {
+			rest = append(rest, ref)
+		}
+		sort.Slice(rest, func(i, j int) bool {
+			a, b := len(l.raw(rest[i])), len(l.raw(rest[j]))
+			if a != b {
+				return a > b
+			}
+			return rest[i].String() < rest[j].String()
+		})
+		return append(rest, out...)
+	}
+	return order(t.in.blobs, func(p *plain) blob.Ref { return p.Enc }), order(t.in.meta, func(p *plain) blob.Ref { return p.Meta })
+}
+
+func (t *tstore) swap(targetL *lowStore, target string, vi int, victim blob.Ref, srcL *lowStore, srcKind string, si int, src blob.Ref, affected int, crafted bool) {
 	orig := targetL.raw(victim)
 	b := srcL.raw(src)
 	if orig == nil || b == nil {
@@ -453,7 +488,7 @@ func (t *tstore) swap(targetL *lowStore, target string, victim blob.Ref, srcL *l
 	if affected >= 0 {
 		aff = t.plains[affected].Ref.String()
 	}
-	m := &mutant{ID: fmt.Sprintf("%s/%s/%s/%s<-%s:%s;", t.id, class, target, victim, srcKind, src), Class: class, Target: target,
+	m := &mutant{ID: fmt.Sprintf("%s/%s/%s/%d<-%s:%d;", t.id, class, target, vi, srcKind, si), Class: class, Target: target,
 		Name: victim.String(), Desc: fmt.Sprintf("serves the bytes of %s blob %s", srcKind, src), Affected: aff,
 		ref: victim, bytes: b, affected: affected}
 	t.r.Note("swap_kinds", srcKind+"->"+target)
@@ -473,8 +508,7 @@ func (t *tstore) run() {
 			}
 		}
 	}
-	dataRefs := in.blobs.refs()
-	metaRefs := in.meta.refs()
+	dataRefs, metaRefs := t.lowerOrder()
 	for _, l := range []*lowStore{in.blobs, in.meta} {
 		l.mu.Lock()
 		l.readonly = true
@@ -533,16 +567,16 @@ func (t *tstore) run() {
 		return -1
 	}
 	for _, p := range pairs(len(dataRefs), len(dataRefs), true) { // data <- data
-		t.swap(in.blobs, "data", dataRefs[p.a], in.blobs, "data", dataRefs[p.b], affOf(dataRefs[p.a]), false)
+		t.swap(in.blobs, "data", p.a, dataRefs[p.a], in.blobs, "data", p.b, dataRefs[p.b], affOf(dataRefs[p.a]), false)
 	}
 	for _, p := range pairs(len(dataRefs), len(metaRefs), false) { // data <- meta
-		t.swap(in.blobs, "data", dataRefs[p.a], in.meta, "meta", metaRefs[p.b], affOf(dataRefs[p.a]), false)
+		t.swap(in.blobs, "data", p.a, dataRefs[p.a], in.meta, "meta", p.b, metaRefs[p.b], affOf(dataRefs[p.a]), false)
 	}
 	for _, p := range pairs(len(metaRefs), len(metaRefs), true) { // meta <- meta
-		t.swap(in.meta, "meta", metaRefs[p.a], in.meta, "meta", metaRefs[p.b], -1, false)
+		t.swap(in.meta, "meta", p.a, metaRefs[p.a], in.meta, "meta", p.b, metaRefs[p.b], -1, false)
 	}
 	for _, p := range pairs(len(metaRefs), len(dataRefs), false) { // meta <- data
-		t.swap(in.meta, "meta", metaRefs[p.a], in.blobs, "data", dataRefs[p.b], -1, craftedEnc[dataRefs[p.b]])
+		t.swap(in.meta, "meta", p.a, metaRefs[p.a], in.blobs, "data", p.b, dataRefs[p.b], -1, craftedEnc[dataRefs[p.b]])
 	}
 	// the targeted form of the crafted substitution: the meta-shaped user blob replaces the
 	// victim's own meta blob (always run, also when the pair sampling above skipped it)
@@ -552,7 +586,7 @@ func (t *tstore) run() {
 		}
 		for _, v := range t.plains {
 			if bytes.Contains(p.Data, []byte(v.Ref.String()+"/")) && v.Meta.Valid() && in.meta.raw(v.Meta) != nil {
-				t.swap(in.meta, "meta", v.Meta, in.blobs, "data", t.plains[i].Enc, -1, true)
+				t.swap(in.meta, "meta", idxOf(metaRefs, v.Meta), v.Meta, in.blobs, "data", idxOf(dataRefs, t.plains[i].Enc), t.plains[i].Enc, -1, true)
 			}
 		}
 	}
@@ -619,6 +653,9 @@ func tamperA(r *ev.Run, root string, n int, large bool) {
 	t.sc.scanned = 0
 	r.Count("plaintext_blobs", len(t.plains))
 	t.run()
+	if t.hung {
+		return
+	}
 	in.leakCheckAll(t.sc, t.plains, "after the tamper phase (state restored)")
 	r.Count("bytes_scanned", int(t.sc.scanned))
 }
@@ -696,8 +733,7 @@ func tamperB(r *ev.Run, root string, n int) {
 	t.sc.scanned = 0
 	r.Count("plaintext_blobs", len(t.plains))
 	// choose targets: the largest meta blob (packed), 3 seeded single meta blobs, 4 seeded data blobs
-	metaRefs := in.meta.refs()
-	sort.Slice(metaRefs, func(i, j int) bool { return len(in.meta.raw(metaRefs[i])) > len(in.meta.raw(metaRefs[j])) })
+	_, metaRefs := t.lowerOrder()
 	if len(metaRefs) == 0 {
 		r.Inconclusive(id + ": no meta blobs")
 		return
@@ -717,9 +753,10 @@ func tamperB(r *ev.Run, root string, n int) {
 	t.dataSel = rng.Perm(nd)[:min(4, nd)]
 	t.run()
 	// packed <-> single swaps explicitly (the sampled pairs may have missed them)
-	if len(metaRefs) > 1 {
-		t.swap(in.meta, "meta", metaRefs[0], in.meta, "meta", metaRefs[1], -1, false)
-		t.swap(in.meta, "meta", metaRefs[1], in.meta, "meta", metaRefs[0], -1, false)
+	if len(metaRefs) > 1 && !t.hung {
+		last := len(metaRefs) - 1
+		t.swap(in.meta, "meta", 0, metaRefs[0], in.meta, "meta", last, metaRefs[last], -1, false)
+		t.swap(in.meta, "meta", last, metaRefs[last], in.meta, "meta", 0, metaRefs[0], -1, false)
 	}
 	in.leakCheckAll(t.sc, t.plains, "after the tamper phase (state restored)")
 	r.Count("bytes_scanned", int(t.sc.scanned))
@@ -758,4 +795,13 @@ func noteCompactions(r *ev.Run, in *inst) {
 func timed(id string) func() {
 	t0 := time.Now()
 	return func() { fmt.Fprintf(os.Stderr, "c11: job %s took %.1fs\n", id, time.Since(t0).Seconds()) }
+}
+
+func idxOf(refs []blob.Ref, ref blob.Ref) int {
+	for i, r := range refs {
+		if r == ref {
+			return i
+		}
+	}
+	return -1
 }
